@@ -51,13 +51,24 @@ pub fn check(tier: Tier) -> Check {
 fn channel_trace(sys: &Sys) -> String {
     let log = sys.w.obs_since(0);
     let mut wire = String::new();
+    // PUBREL packets form a channel of their own, as in the model (section 3.4): they are written by the
+    // publish() future's request (or by the context), i.e. by another task than the acknowledgements
+    // around them, and where they stand among those depends on when the transport lets a write through -
+    // which is the transport's timing, not the polling discipline C16 is about
+    let mut rels = String::new();
+    let mut len = String::new();
     let mut ops: Vec<String> = vec![String::new(); sys.w.ops.len()];
     let mut streams: Vec<String> = vec![String::new(); sys.w.streams.len()];
     let mut ctx = String::new();
     for o in &log {
         match o {
-            Ob::WireLen(n) => wire.push_str(&format!("{}B:", n)),
-            Ob::Wire(p) => wire.push_str(&format!("{:?};", p)),
+            Ob::WireLen(n) => len = format!("{}B:", n),
+            Ob::Wire(p) => {
+                let ch = if matches!(p, pvcore::refcodec::CPacket::Pubrel(_)) { &mut rels } else { &mut wire };
+                ch.push_str(&len);
+                ch.push_str(&format!("{:?};", p));
+                len.clear();
+            }
             Ob::WireErr(e) => wire.push_str(&format!("ERR {};", e)),
             Ob::Done { op, res } => ops[*op].push_str(res),
             Ob::Item { stream, dig } => streams[*stream].push_str(&format!("{};", dig)),
@@ -67,7 +78,7 @@ fn channel_trace(sys: &Sys) -> String {
             Ob::Broken { rule, detail } => ctx.push_str(&format!("BROKEN {} {};", rule, detail)),
         }
     }
-    format!("W[{}] O{:?} S{:?} C[{}]", wire, ops, streams, ctx)
+    format!("W[{}] R[{}] O{:?} S{:?} C[{}]", wire, rels, ops, streams, ctx)
 }
 
 #[derive(Clone, Copy, Debug)]
